@@ -15,9 +15,9 @@ import robust_run as rr
 MLS = ("robust",)
 HARNESSES = ()
 LEVEL = "proof"
-THEOREMS = []
-if os.path.exists(os.path.join(vlib.COQ, "Props", "C10.v")):
-    THEOREMS = re.findall(r"^Theorem\s+(C10_[A-Za-z0-9_]+)", open(os.path.join(vlib.COQ, "Props", "C10.v")).read(), re.M)
+THEOREMS = ["C10_invalid_disconnects_sender_only", "C10_invalid_sender_gone_others_untouched", "C10_nothing_after_corruption",
+            "C10_invalid_bytes_invisible", "C10_isolation_partial", "C10_isolation", "C10_preauth_silent", "C10_incomplete_bounded",
+            "C10_accept_gate", "C10_setup_assertion_holds", "C10_env_run_is_run", "C10_loader_nothing_after_corruption"]
 
 NWORKERS = min(6, max(2, (os.cpu_count() or 4) // 2))
 
@@ -90,7 +90,7 @@ def run(ctx):
             for f in sorted(os.listdir(cdir)):
                 if f.endswith(".json"):
                     scripts += json.load(open(os.path.join(cdir, f)))
-        n_plain, n_flood, n_timed = (700, 10, 14) if tier == "quick" else (14000, 150, 200)
+        n_plain, n_flood, n_timed = (1100, 14, 18) if tier == "quick" else (16000, 160, 220)
         gen = rg.generate(rnd, n_plain, n_flood, n_timed)
         have = {json.dumps(s["events"]) for s in scripts}
         scripts += [s for s in gen if json.dumps(s["events"]) not in have]
